@@ -141,6 +141,16 @@ func replayLegacy(line []byte, a *Acc) {
 	defer hl.check(func(name, was, now string) {
 		one("legacy:result-changed-later", fmt.Sprintf("the bytes returned by %s were %q and read %q after later wrapper calls", name, was, now))
 	})
+	// value lists returned by the walkers belong to the caller: re-read after all later wrapper calls
+	var hf heldFns
+	defer hf.check(func(name, was, now string) {
+		one("legacy:result-changed-later", fmt.Sprintf("the values returned by %s were %s and read %s after later wrapper calls", name, was, now))
+	})
+	holdList := func(name string, vs []interface{}) {
+		if len(vs) > 0 {
+			hf.add(name, func() string { return strings.Join(tagged.CanonList(vs), " ") })
+		}
+	}
 	n := 0
 	jdoc, _ := mv.Json()
 	mxj.XMLEscapeChars(true)
@@ -287,6 +297,7 @@ func replayLegacy(line []byte, a *Acc) {
 			sort.Strings(want)
 			sort.Strings(got)
 		}
+		holdList("j2x.JsonValuesForKeyPath("+p.P+")", vs)
 		eq("j2x.JsonValuesForKeyPath("+p.P+")", fmt.Sprint(got, e), fmt.Sprint(want, nil))
 		// the wrapper's own walkers
 		called("ValuesFromKeyPath")
@@ -304,6 +315,8 @@ func replayLegacy(line []byte, a *Acc) {
 				sort.Strings(g2)
 				sort.Strings(w2)
 			}
+			holdList(fmt.Sprintf("x2j-wrapper.ValuesFromKeyPath(%s,%v)", p.P, ga), wf)
+			holdList(fmt.Sprintf("x2j-wrapper.ValuesAtKeyPath(%s,%v)", p.P, ga), wa)
 			eq(fmt.Sprintf("x2j-wrapper.ValuesFromKeyPath(%s,%v)", p.P, ga), fmt.Sprint(g1), fmt.Sprint(w1))
 			eq(fmt.Sprintf("x2j-wrapper.ValuesAtKeyPath(%s,%v)", p.P, ga), fmt.Sprint(g2), fmt.Sprint(w2))
 		}
@@ -322,6 +335,10 @@ func replayLegacy(line []byte, a *Acc) {
 			t3, e3 := wrap.ValuesAtTagPath(string(xdoc), p.P, true)
 			c3 := wrap.ValuesAtKeyPath(xm, p.P, true)
 			eq("x2j-wrapper.ValuesAtTagPath("+p.P+")", bag(t3)+fmt.Sprint(e3), bag(c3)+"<nil>")
+			holdList("x2j.XmlValuesForPath("+p.P+")", xv)
+			holdList("x2j-wrapper.ValuesFromTagPath("+p.P+")", t1)
+			holdList("x2j-wrapper.ReaderValuesFromTagPath("+p.P+")", t2)
+			holdList("x2j-wrapper.ValuesAtTagPath("+p.P+")", t3)
 		}
 	}
 	// update / new-map / leaf wrappers: differential with the composition on the real core
